@@ -153,6 +153,7 @@ def main(pid, run, argv=None):
     ap.add_argument("--replay")
     a = ap.parse_args(argv)
     seed = int(os.environ.get("VERIF_SEED", "20260921"))
+    c = None
     try:
         c = Check(pid, a.tier, seed)
         c.replay = a.replay
@@ -167,3 +168,6 @@ def main(pid, run, argv=None):
         traceback.print_exc()
         print("MACHINERY-FAILURE property=%s: unexpected exception in harness" % pid, file=sys.stderr)
         return 2
+    finally:
+        if c is not None:       # never leave an overlay / TLC scratch behind, whatever happened
+            shutil.rmtree(c.work, ignore_errors=True)
